@@ -426,22 +426,30 @@ def check_set_untagged_any(rep):
     inner_rec = rec.clone()
     inner_rec['f'] = True
     inner_rec['s'] = b'xyz'
-    for id_t, ids in ((univ.Integer(), [1, 2, 3, 4]), (univ.ObjectIdentifier(), [(1, 3, 6, 1, k) for k in (1, 2, 3, 4)])):
-        inners = [univ.OctetString(b'ab'), char.UTF8String('hi'), inner_ints, inner_rec]
+    # present but empty inner values: nothing of theirs to write but their own header - the field is still there
+    allopt = univ.Sequence(componentType=namedtype.NamedTypes(namedtype.OptionalNamedType('p', univ.Boolean()), namedtype.OptionalNamedType('q', univ.OctetString())))
+    strs = univ.SetOf(componentType=univ.OctetString())
+    empty_strs = strs.clone()
+    empty_strs.clear()
+    empty_allopt = allopt.clone()
+    empty_allopt.clear()
+    for id_t, ids, optional in [(i_, j_, o_) for i_, j_ in ((univ.Integer(), [1, 2, 3, 4, 5, 6]), (univ.ObjectIdentifier(), [(1, 3, 6, 1, k) for k in (1, 2, 3, 4, 5, 6)]))
+                                for o_ in (False, True)]:
+        inners = [univ.OctetString(b'ab'), char.UTF8String('hi'), inner_ints, inner_rec, empty_strs, empty_allopt]
         if isinstance(id_t, univ.ObjectIdentifier):
             inners[1] = univ.Integer(5)          # an INTEGER inner value is unambiguous when the governing member is an OID
-        tmap = dict((k, v.clone() if not hasattr(v, 'componentType') else (ints if v is inner_ints else rec)) for k, v in zip(ids, inners))
+        tmap = dict((k, v.clone() if not hasattr(v, 'componentType') else {id(inner_ints): ints, id(inner_rec): rec, id(empty_strs): strs, id(empty_allopt): allopt}[id(v)]) for k, v in zip(ids, inners))
         for k in list(tmap):
             if not hasattr(tmap[k], 'componentType'):
                 tmap[k] = type(tmap[k])()
         schema = univ.Set(componentType=namedtype.NamedTypes(
-            namedtype.NamedType('id', id_t), namedtype.NamedType('value', univ.Any(), openType=opentype.OpenType('id', tmap))))
+            namedtype.NamedType('id', id_t), (namedtype.OptionalNamedType if optional else namedtype.NamedType)('value', univ.Any(), openType=opentype.OpenType('id', tmap))))
         for gid, inner in zip(ids, inners):
             for cdc, dm in MODES:
                 for resolve in (True, False):
                     rep.evaluations += 1
                     rep.count('set-untagged-any')
-                    case = {'kind': 'set-untagged-any', 'id': str(gid), 'inner': type(inner).__name__, 'codec': cdc, 'defMode': dm, 'resolve': resolve}
+                    case = {'kind': 'set-untagged-any', 'optional': optional, 'id': str(gid), 'inner': type(inner).__name__, 'codec': cdc, 'defMode': dm, 'resolve': resolve}
                     try:
                         v = schema.clone()
                         v['id'] = gid
@@ -453,12 +461,19 @@ def check_set_untagged_any(rep):
                     except Exception as e:  # noqa
                         rep.fail('set-untagged-any:%s' % codec.classify(e), 'resolve=%s: %r' % (resolve, e), case)
                         continue
-                    if resolve:
-                        ok = (not rest) and type(got) is type(inner) and got == inner
-                    else:
-                        ok = (not rest) and bytes(got) == raw
+                    try:
+                        if not got.isValue:
+                            ok, shown = False, 'absent (a valueless placeholder)'
+                        elif resolve:
+                            ok, shown = (not rest) and type(got) is type(inner) and got == inner, None
+                        else:
+                            ok, shown = (not rest) and bytes(got) == raw, None
+                        if shown is None:
+                            shown = str(got.prettyPrint())[:80].replace('\n', ' ')
+                    except Exception as e:  # noqa
+                        ok, shown = False, 'unreadable (%s)' % type(e).__name__
                     if not ok:
-                        rep.fail('set-untagged-any:value', 'resolve=%s: the field came back as %s' % (resolve, str(got.prettyPrint())[:80].replace('\n', ' ')),
+                        rep.fail('set-untagged-any:value', 'resolve=%s: the field came back as %s' % (resolve, shown),
                                  dict(case, bytes=data.hex()))
 
 
